@@ -121,6 +121,11 @@ for feats, tag in (((), ""), (TIMING, "_timing")):
     for t in SECRET_TYPES:
         body = SURFACE_MACRO + "fn main() { %s }" % " ".join("not_impl!(%s, No%s, %s);" % (t, n, pred) for n, pred in SURFACE)
         add("C10", "c10_surface%s_%s" % (tag, t), "accept", body, features=feats)
+# the PKCE verifier cannot be duplicated, neither alone nor through the request builder that holds it
+add("C10", "c10_surface_code_request_not_clone", "accept", SURFACE_MACRO +
+    "fn main() { not_impl!(CodeTokenRequest<'static, BasicErrorResponse, BasicTokenResponse>, NoClone, T: Clone); not_impl!(PkceCodeVerifier, NoCloneV, T: Clone); }")
+add("C10", "c10_surface_code_request_not_clone_timing", "accept", SURFACE_MACRO +
+    "fn main() { not_impl!(CodeTokenRequest<'static, BasicErrorResponse, BasicTokenResponse>, NoClone, T: Clone); not_impl!(PkceCodeVerifier, NoCloneV, T: Clone); }", features=TIMING)
 # the probe technique itself: the same assertion about a trait that IS implemented must be rejected
 add("C10", "c10_surface_selftest", "reject", SURFACE_MACRO + "fn main() { not_impl!(ClientSecret, NoDebug, T: std::fmt::Debug); }", code="E0283", needle="Amb")
 
